@@ -454,7 +454,7 @@ func (ms *MintServer) mintTokensRequest(rw http.ResponseWriter, req *http.Reques
 	}
 
 	// check in cache first. Look at: https://github.com/cashubtc/nuts/blob/main/19.md
-	response, found := ms.cache.Get(req.Method + req.URL.String() + string(body))
+	response, found := ms.cache.Get(cacheKey(req, body))
 	if found {
 		ms.mint.logDebugf("returning signatures for mint quote '%v' from cache", mintReq.Quote)
 		ms.logRequest(req, http.StatusOK, "returning signatures on mint tokens request")
@@ -487,7 +487,7 @@ func (ms *MintServer) mintTokensRequest(rw http.ResponseWriter, req *http.Reques
 
 	// if less than 2MB, write request/response pair to cache
 	if len(body) < REQUEST_BODY_SIZE_LIMIT {
-		ms.cache.Set(req.Method+req.URL.String()+string(body), jsonRes, time.Second*CACHE_ITEM_TTL)
+		ms.cache.Set(cacheKey(req, body), jsonRes, time.Second*CACHE_ITEM_TTL)
 	}
 
 	ms.logRequest(req, http.StatusOK, "returning signatures on mint tokens request")
@@ -509,7 +509,7 @@ func (ms *MintServer) swapRequest(rw http.ResponseWriter, req *http.Request) {
 	}
 
 	// check in cache first. Look at: https://github.com/cashubtc/nuts/blob/main/19.md
-	response, found := ms.cache.Get(req.Method + req.URL.String() + string(body))
+	response, found := ms.cache.Get(cacheKey(req, body))
 	if found {
 		ms.mint.logDebugf("returning signatures for swap request from cache")
 		ms.logRequest(req, http.StatusOK, "returning signatures on swap request")
@@ -540,7 +540,7 @@ func (ms *MintServer) swapRequest(rw http.ResponseWriter, req *http.Request) {
 
 	// if less than 2MB, write request/response pair to cache
 	if len(body) < REQUEST_BODY_SIZE_LIMIT {
-		ms.cache.Set(req.Method+req.URL.String()+string(body), jsonRes, time.Second*CACHE_ITEM_TTL)
+		ms.cache.Set(cacheKey(req, body), jsonRes, time.Second*CACHE_ITEM_TTL)
 	}
 
 	ms.logRequest(req, http.StatusOK, "returning signatures on swap request")
@@ -786,6 +786,13 @@ func (ms *MintServer) mintInfo(rw http.ResponseWriter, req *http.Request) {
 
 	ms.logRequest(req, http.StatusOK, "returning mint info")
 	rw.Write(jsonRes)
+}
+
+// cacheKey returns the NUT-19 cache key for a request. The parts are separated by a NUL
+// byte, which cannot occur in a method or in URL.String(), so that different
+// (method, url, body) triples never map to the same key.
+func cacheKey(req *http.Request, body []byte) string {
+	return req.Method + "\x00" + req.URL.String() + "\x00" + string(body)
 }
 
 func decodeJsonReqBody(req *http.Request, dst any) error {
